@@ -529,7 +529,7 @@ func c22Run(rep *mc.Report, acc *c22Acc, c *c22Case) {
 				// (with a monthly step the meaning of a seconds offset is left open by the statement)
 				if r.FromSec != T[idx]-off {
 					sig := "lod-range-does-not-match-points"
-					if off != 0 && r.FromSec != T[idx] {
+					if off != 0 {
 						// contiguous, aligned, of the right length - but moved by something else than the metric's offset
 						sig = "lod-ranges-shifted-by-other-than-metric-offset"
 					}
@@ -947,11 +947,9 @@ func TestVerifC22(t *testing.T) {
 		offAlpha = c22Dedupe(offAlpha)
 	}
 	const noSecond = int64(-1)
-	off2Alpha := append([]int64{noSecond}, offAlpha...)
-	if !thorough {
-		off2Alpha = []int64{noSecond, 0, 60, 900, 3600, c22Day}
-	}
-	stepsD := mc.Pick([]int64{0, 60, 900}, []int64{0, 1, 15, 60, 900, 3600, c22Day})
+	off2Alpha := mc.Pick([]int64{noSecond, 0, 60, 900, 3600, c22Day},
+		[]int64{noSecond, 0, 1, 15, 60, 300, 900, 2700, 3600, 4 * 3600, c22Day, c22Week, c22Month})
+	stepsD := mc.Pick([]int64{0, 60, 900}, []int64{0, 1, 60, 900, 3600})
 	profilesD := []c22Profile{
 		{RangeQuery, false, 0, 1, 0, false},
 		{InstantQuery, true, 4000, 5, 0, false},
@@ -973,10 +971,13 @@ func TestVerifC22(t *testing.T) {
 		if !thorough && !(c.ws == 1 && (c.z.name == "UTC" || c.z.name == "Asia/Kolkata" || c.z.name == "Pacific/Chatham")) {
 			continue
 		}
+		if thorough && !(c.ws == 1 || (c.ws == 0 && c.z.name == "America/New_York")) {
+			continue
+		}
 		day := time.Date(2024, 6, 10, 0, 0, 0, 0, time.UTC).Unix() - c.z.std
 		nowsD := []int64{day + 47*3600}
-		if thorough {
-			nowsD = append(nowsD, day+40000+17)
+		if thorough && c.z.name == "UTC" {
+			nowsD = append(nowsD, day+40000+17) // a now that is not aligned to anything
 		}
 		for _, now := range nowsD {
 			for _, sa := range startAges {
